@@ -361,6 +361,16 @@ func (fv *FV) verifyFunc(c *Contract, d *declInfo) {
 	if len(c.Params) != len(objs) {
 		fv.unsupported("contract header has %d parameters (incl. receiver), function has %d", len(c.Params), len(objs))
 	}
+	if tps := sig.TypeParams(); tps != nil {
+		for i := 0; i < tps.Len(); i++ {
+			fv.tsub[tps.At(i).Obj().Name()] = tps.At(i)
+		}
+	}
+	if tps := sig.RecvTypeParams(); tps != nil {
+		for i := 0; i < tps.Len(); i++ {
+			fv.tsub[tps.At(i).Obj().Name()] = tps.At(i)
+		}
+	}
 	// signature check: types as written must match
 	fv.checkHeaderTypes(c, sig, d)
 	for i, o := range objs {
